@@ -122,6 +122,16 @@ fn main() {
     }
     exec::install_panic_hook();
     let prop = args[1].clone();
+    if let Some(p) = arg_val(&args, "--run-trail") {
+        let text = std::fs::read_to_string(&p).expect("read trail file");
+        let j: Value = serde_json::from_str(&text).expect("parse trail file");
+        let name = j["scenario"].as_str().unwrap();
+        let scn = props::scenarios(&prop, Tier::Quick).into_iter().chain(props::scenarios(&prop, Tier::Thorough)).find(|s| s.name() == name).expect("scenario not found");
+        let trail: Vec<Dec> = j["trail"].as_array().unwrap().iter().map(dec_from_json).collect();
+        let r = exec::run_trail(&*scn, trail);
+        println!("trail re-executed without abort: ops={:?} panic={:?}", r.oplog, r.panicked);
+        std::process::exit(0);
+    }
     if let Some(p) = arg_val(&args, "--replay") {
         std::process::exit(replay(&prop, &p));
     }
